@@ -401,6 +401,28 @@ def step (d : DState) (tok : List String) : DState × List String :=
           else (d, [s!"update raised hash_search attempts={a} buckets={b}"])
         | .raised (.fault w) => (d, [s!"update fault {w}"])
       | "dump", _ => (d, dump s)
+      | "cmpmatrix", _ =>
+        -- is_more_specific / is_base on every pair of definitions of every method: the hand-written model, or in
+        -- --src mode the bodies translated from compiler.hpp (Sel.exec)
+        match s.compiled with
+        | none => (d, ["cmp none"])
+        | some c =>
+          let der := fun (x y : Nat) => (c.graph.cov.get y).contains x
+          let bit := fun (b : Bool) => if b then "1" else "0"
+          let viaSrc := fun (body : Sel.Stmt) (a b : List Nat) =>
+            match Sel.run der (a.length + 1) body a b with
+            | .returned v => bit v
+            | .normal _ => "?"
+            | .fault _ => "F"
+            | .outOfFuel => "T"
+          (d, c.methods.map (fun m =>
+            let vps := m.specs.map (·.2)
+            let pairs := vps.flatMap (fun a => vps.map (fun b => (a, b)))
+            let ms := pairs.map (fun (a, b) =>
+              if d.src then viaSrc Generated.CompareSrc.is_more_specific a b else bit (isMoreSpecific der a b))
+            let bs := pairs.map (fun (a, b) =>
+              if d.src then viaSrc Generated.CompareSrc.is_base a b else bit (isBase der a b))
+            s!"cmp {m.key} n={vps.length} ms={String.join ms} base={String.join bs}"))
       | "offsets", _ =>
         match s.inst with
         | none => (d, [])
